@@ -275,7 +275,8 @@ def convert(h, r, pivot=0):
     sc = {"root": h.get("anchor", h.get("walk_from", 1)), "n": n,
           "parent": [byid[i]["parent"] for i in ids], "kind": [byid[i]["kind"] for i in ids],
           "target": [byid[i]["target"] for i in ids], "readable": [byid[i]["readable"] for i in ids],
-          "follow": h["follow"], "min": max(0, wmin - pivot), "max": wmax if wmax >= 100 else max(0, wmax - pivot),
+          # the bounds as configured; WalkTrace.tla translates them by the number of components of the prefix
+          "follow": h["follow"], "cmin": wmin, "cmax": wmax, "prefix": list(h.get("_prefix_bytes", [])) if pivot else [],
           "glob": has_glob, "comp": comp, "match": match, "layers": layers}
     return {"sid": h["sid"], "sc": sc, "actions": acts}, yielded
 
@@ -488,6 +489,7 @@ def glob_prefixes(globs):
         else:
             res[g] = [(c["k"], C.text(c["s"])) for c in o["part"]["comps"]]
             res[("post", g)] = C.text(o["part"]["post"]) if o["part"]["has_post"] else None
+            res[("prefix", g)] = C.text(o["part"]["prefix"])
     return res
 
 
@@ -656,6 +658,7 @@ def prepare_glob_scenarios(scenarios):
         h["_plain_prefix"] = plain
         h["_anchor_text"] = anchor_text
         h["_post"] = pre[("post", g)]
+        h["_prefix_bytes"] = list(pre[("prefix", g)].encode("utf-8"))
         ncomps = len([c for c in comps if c[0] != "root"])
         if h.get("rooted"):
             # pivot = every component of the absolute prefix; the model only sees the sub-tree at the anchor
